@@ -146,6 +146,10 @@ def call_value(fr, fv, args, kw, extra, n):
         a = call_value(fr, fv[2], args, kw, extra, n)
         b = call_value(fr, fv[3], args, kw, extra, n)
         return T.gamma(fv[1], a, b)
+    if fv[0] == 'attrgetter' and len(args) == 1 and not kw:
+        # operator.attrgetter('a', 'b')(obj) is (obj.a, obj.b)  (the attribute itself for a single name)
+        vals = [builtin_value(fr, 'getattr', [args[0], C(nm)], {}, n) for nm in fv[1]]
+        return vals[0] if len(vals) == 1 else ('tuple', tuple(vals))
     if fv[0] == 'builtin':
         return builtin_value(fr, fv[1], args, kw, n)
     if fv[0] == 'lambda' and fv[1] in fr.ctx.lambdas and not kw and not extra:
@@ -168,9 +172,12 @@ def bind_args(fn, args, kw, extra, skip_self=False):
     params = list(fn.params)
     bound, problems = {}, []
     pos = list(args)
+    star = False
     if any(a[0] == 'starargs' for a in pos):
-        problems.append('starred positional arguments')
-        pos = [a for a in pos if a[0] != 'starargs']
+        # f(a, *rest, b): how many parameters the starred operand fills is not known here: only the arguments before it are bound by position,
+        # and nothing can be said to be missing
+        star = True
+        pos = pos[:next(i for i, a in enumerate(pos) if a[0] == 'starargs')]
     if len(pos) > len(params):
         if fn.vararg:
             bound[fn.vararg] = ('tuple', tuple(pos[len(params):]))
@@ -193,7 +200,7 @@ def bind_args(fn, args, kw, extra, skip_self=False):
     if fn.kwarg:
         bound[fn.kwarg] = ('dict', tuple(sorted(rest.items())))
     for p in params + fn.kwonly:
-        if p not in bound and p not in fn.defaults and not extra:
+        if p not in bound and p not in fn.defaults and not extra and not star:
             problems.append(f'missing argument {p!r}')
     return bound, problems
 
@@ -477,7 +484,18 @@ def builtin_value(fr, name, args, kw, n):
         ctx.event('call', 'print', args, kw, guard=fr.guard(), loops=fr.loops, where=fr.where(n))
         return NONE
     if name == 'getattr' and len(args) >= 2:
+        if args[0][0] == 'obj' and T.isconst(args[1]) and isinstance(args[1][1], str):
+            at = ctx.heap[args[0][1]]['attrs']
+            if args[1][1] in at:
+                return at[args[1][1]]                       # getattr(obj, 'name') is obj.name
         return ('attr', args[0], args[1])
+    if name == 'setattr' and len(args) == 3 and args[0][0] == 'obj' and T.isconst(args[1]) and isinstance(args[1][1], str):
+        # setattr(obj, 'name', v) is obj.name = v
+        at = ctx.heap[args[0][1]]['attrs']
+        g = T.and_(fr.pc + fr.ret_perm + [c for lvl in fr.alive for c in lvl['conds']])
+        at[args[1][1]] = args[2] if g == TRUE else T.gamma(g, args[2], at.get(args[1][1], ('undefined', args[1][1])))
+        ctx.event('setattr', args[1][1], (args[0], args[2]), guard=g, loops=fr.loops, where=fr.where(n))
+        return NONE
     if name == 'super':
         return ('super',)
     if name in ('ValueError', 'TypeError', 'KeyError', 'AttributeError', 'ImportError', 'Exception', 'IndexError'):
@@ -806,6 +824,8 @@ def external(fr, dotted, args, kw, extra, n):
         return T.band(args) if dotted.endswith('and_') else T.bor(args)
     if dotted == 'itertools.product':
         return T.call('product', args, kw)
+    if dotted == 'operator.attrgetter' and args and not kw and all(T.isconst(a) and isinstance(a[1], str) and '.' not in a[1] for a in args):
+        return ('attrgetter', tuple(a[1] for a in args))
     if dotted == 'itertools.repeat' and len(args) == 2 and not kw:
         return T.call('seqrepeat', (('list', (args[0],)), args[1]))      # repeat(x, n) yields what [x] * n holds
     if dotted == 'itertools.cycle':
